@@ -277,7 +277,29 @@ fn threads(ctx: &Ctx, rep: &mut Report) {
             let case = Case::random(Cfg::new(n, m, cap, ext), VALUE_CLASSES[k % 6], PROMISE_CLASSES[k % 5], true, &mut rng);
             let mut prng = FaultRng::new(RngKind::Healthy(rng.next_u64()));
             let st = case.statement_with(&shared, &case.promises, case.seed);
-            let Ok(proof) = RangeProof::prove_with_rng(&mut case.transcript(), &st, &case.witness(), &mut prng) else { continue };
+            let proof = match no_panic(|| RangeProof::prove_with_rng(&mut case.transcript(), &st, &case.witness(), &mut prng)) {
+                Ok(Ok(p)) => p,
+                other => {
+                    // the shared parameter object has already served statements of other sizes: the same call on a
+                    // freshly constructed, value-identical parameter set decides whether that history matters
+                    let fresh = params_uncached(n, cap, ext);
+                    let stf = case.statement_with(&fresh, &case.promises, case.seed);
+                    let mut prng2 = FaultRng::new(RngKind::Healthy(1));
+                    if RangeProof::prove_with_rng(&mut case.transcript(), &stf, &case.witness(), &mut prng2).is_ok() {
+                        let why = match other {
+                            Ok(Err(e)) => e.to_string(),
+                            Err(p) => format!("panic: {p}"),
+                            _ => String::new(),
+                        };
+                        rep.violation(
+                            "C18 history-dependence [shared parameter object]",
+                            &format!("proving an aggregate of {m} over a parameter object that earlier served statements of other sizes fails ({why}), while the same call over a freshly constructed identical parameter set succeeds"),
+                            json!({"tier": if ctx.thorough() {"thorough"} else {"quick"}, "seed": ctx.seed, "leg": "threads", "case": id, "descr": {"bits": n, "ext": ext, "aggregation": m, "capacity": cap}}),
+                        );
+                    }
+                    continue;
+                },
+            };
             jobs.push(Job { kind: k, case, proof, rng_seed: rng.next_u64() });
         }
         // sequential baseline
